@@ -18,6 +18,61 @@ CHECKS = {
    note=("Trusted: the hand transcription of the documented graph; unreachable (status, owner) records cannot be set up "
          "through the public API and are listed, not exercised; unknown ids are expected to raise KeyError."),
    design="6/C01", technique=TECH),
+ "C02": dict(
+   text=("PynencCore.tla (2 pollers + workers, duplicate queue message) model-checked exhaustively for ClaimsAlternate, "
+         "OnlyOwnerMoves, NoParallelBody; the real get_invocations_to_run + invocation.run of 2-4 pollers run under a "
+         "deterministic scheduler: DFS over all schedules with a preemption bound at SQL-statement (SQLite) / source-line "
+         "(memory) granularity inside the claim and the queue pop, plus PCT schedules; every recorded execution is "
+         "monitored by TLC (CoreObs.tla)."),
+   note=("Trusted: the scheduler's preemption points (backend calls; SQL statements / source lines inside "
+         "_atomic_status_transition and retrieve_invocation); SQLite lock waits are modelled by blocking the actor until "
+         "the write lock is free. Bytecode-level races inside one source line are out of reach. Quick tier bounds DFS "
+         "executions per scenario."),
+   design="6/C02", technique=TECH + "; schedule exploration of the real code (stateless DFS, PCT)"),
+ "C03": dict(
+   category="fault_enumeration",
+   text=("PynencCore.tla with one hard crash of any process at any pc: NoStranded holds fault-free for every role; with a "
+         "crash TLC enumerates the classes of stranded invocations. On the real code every backend-call point of every role "
+         "scenario (client single/batch, claim, run incl. retry/failure, concurrency-control reroute, self-reroute, pending / "
+         "running recovery, kill-and-reroute) is a crash point: the process is killed there, survivors finish, TLC evaluates "
+         "NoStrandedQuiescent, then recovery + a surviving runner run and TLC evaluates EventuallyFinal. The design-level "
+         "windows found are recorded in known_findings.json by (window, role, status); anything else is a VIOLATION."),
+   note=("Crash = no further backend effect + rollback of an open SQLite transaction; granularity = before/after every "
+         "backend call; process runners' OS-level behaviour is not exercised here (stand-ins in C14)."),
+   design="6/C03", technique=TECH + "; exhaustive single-crash-point enumeration on the real code"),
+ "C04": dict(
+   text=("Recovery.tla (integer clock, own / parent-reported heartbeats, both timeouts 1..3) model-checked: scans select "
+         "exactly the stuck work. TLC-simulated and boundary-heavy histories are replayed on both orchestrators with an exact "
+         "virtual clock and every scan / recovery run is validated by TLC (strict conformance + StuckSelected / NoSteal / "
+         "TakenAreRequeued formulas). Real recovery runs are interleaved with owners making progress (DFS at backend-call "
+         "granularity) and monitored by TLC (NoStealObs, nothing left in a *_RECOVERY status, bounded EventuallyFinal)."),
+   note="Virtual clock with exact integer seconds; heartbeats of children reported by a parent are the same orchestrator call.",
+   design="6/C04", technique=TECH),
+ "C05": dict(
+   text=("PynencCore.tla: SuccessHasResult / FailedHasException in every reachable state (incl. killed threads finishing late). "
+         "Real reader (get_final_result) x real worker explored by DFS at backend-call granularity on both families; "
+         "generated results / exceptions (recursive structures, sizes straddling the externalisation threshold) over every "
+         "serializer x family x threshold / disable option; TLC compares the identities (digests) of values returned by "
+         "bodies, stored, and read by clients."),
+   note=("Value equality through a canonical digest: serializer injectivity on its domain is sampled, not proved "
+         "(DESIGN.md section 8). Open known finding: positional args of plain PynencError subclasses are lost."),
+   design="6/C05", technique=TECH + "; generated values (sampling) for the encode/decode part"),
+ "C06": dict(
+   text=("PynencCore.tla with concurrency keys: OneRunningPerKey + NoStranded exhaustive for one runner; the 2-runner "
+         "check-then-act race and the blocked-RETRY poll failure are design-level counterexamples found by TLC and replayed "
+         "step by step on the real code (spec -> code). Real code: every mode x reroute option x submission path (single / "
+         "batch / retry) x arrival order x 1-2 runners x family under DFS + seeded schedules, monitored by TLC "
+         "(OneRunningPerKey at every step, PollNeverFails, BlockedPerOption, LookupMatchesKey, BlockedHadPeer, NoneLeftControlled)."),
+   note="Backend-call granularity; two-argument keys sharing components across keys; known findings matched by narrow signatures.",
+   design="6/C06", technique=TECH + "; TLC counterexamples replayed on the implementation"),
+ "C10": dict(
+   text=("PynencCore.tla with history writers as independent late actors: HistoryIsChangeLog, ChangeLogIsPath. Real code: "
+         "lifecycles with duplicate messages, retries, concurrency-control reroutes, kill-and-reroute and recovery racing with "
+         "owners, under DFS + seeded schedules with the asynchronous history writers run after everybody (FIFO / LIFO) or "
+         "interleaved at random; after the flush TLC compares get_history (ordered by time of change) with the log of "
+         "successful changes."),
+   note="History threads become scheduler actors by substituting threading.Thread inside base_state_backend (runtime).",
+   design="6/C10", technique=TECH),
 }
 
 NOT_YET = {
